@@ -92,7 +92,7 @@ def finish (a : Acc) : Bool × Bool × List String :=
   let obs : Obs := { sent := a.sent, err := a.err, method := a.method, url := a.url,
                      headers := a.headers, tree := implTree }
   -- model
-  let (reqs, mexc) := asyncCallSend O Gen.C06Types.escapeExtra decl a.kw
+  let (reqs, mexc) := asyncCallSend O Gen.C06Types.escapeExtra Gen.C06Types.nsAttrQuoted decl a.kw
   let notes : List String := if treeBad then ["unparsable tree lines"] else []
   let notes := if reqs.length != a.sent then notes ++ [s!"sent impl={a.sent} model={reqs.length}"] else notes
   let notes :=
